@@ -1,8 +1,8 @@
 #!/bin/bash
-# tools/runall.sh [tier] [seed]  - run every registered check once, print one line each
+# tools/runall.sh [tier] [seed] [first]  - run every registered check (from number `first`) once, print one line each
 cd "$(dirname "$0")/.."
-tier=${1:-quick}; seed=${2:-1}
-for i in $(seq -w 1 20); do
+tier=${1:-quick}; seed=${2:-1}; first=${3:-1}
+for i in $(seq -w $first 20); do
   id=C$i
   start=$(date +%s)
   out=$(VERIF_SEED=$seed ./check $id $tier 2>&1); rc=$?
